@@ -9,6 +9,7 @@ import (
 	"log/slog"
 	"net"
 	"sync"
+	"sync/atomic"
 	"time"
 )
 
@@ -22,7 +23,8 @@ type connection struct {
 	activeMsgCompleteChan chan *Message
 	reissuePackChan       chan *Message
 	// platformSerialNumber 平台流水号 到了math.MaxUint16后+1重新变成0
-	platformSerialNumber uint16
+	// reader协程写日志的时候也会读取 所以用原子操作
+	platformSerialNumber atomic.Uint32
 	joinFunc             func(message *Message, activeChan chan<- *ActiveMessage) (string, error)
 	leaveFunc            func(key string)
 	key                  string
@@ -41,7 +43,6 @@ func newConnection(conn *net.TCPConn, handles map[consts.JT808CommandType]Handle
 		activeMsgChan:         make(chan *ActiveMessage, 3),
 		activeMsgCompleteChan: make(chan *Message, 3),
 		reissuePackChan:       make(chan *Message, 3),
-		platformSerialNumber:  uint16(0),
 		joinFunc:              join,
 		leaveFunc:             leave,
 		filter:                filter,
@@ -76,13 +77,13 @@ func (c *connection) reader() {
 				if errors.Is(err, net.ErrClosed) || errors.Is(err, io.EOF) {
 					slog.Debug("connection close",
 						slog.Bool("join", join),
-						slog.Any("platform num", c.platformSerialNumber),
+						slog.Any("platform num", uint16(c.platformSerialNumber.Load())),
 						slog.Any("err", err))
 					return
 				}
 				slog.Error("read data",
 					slog.Bool("join", join),
-					slog.Any("platform num", c.platformSerialNumber),
+					slog.Any("platform num", uint16(c.platformSerialNumber.Load())),
 					slog.Any("err", err))
 				return
 			} else if n > 0 {
@@ -91,7 +92,7 @@ func (c *connection) reader() {
 				if err != nil {
 					slog.Error("parse data",
 						slog.Bool("join", join),
-						slog.Any("platform num", c.platformSerialNumber),
+						slog.Any("platform num", uint16(c.platformSerialNumber.Load())),
 						slog.String("effective data", fmt.Sprintf("%x", effectiveData)),
 						slog.Any("err", err))
 					return
@@ -170,7 +171,6 @@ func (c *connection) stop() {
 		// 只关闭stopChan 其他channel可能还有发送方(会话管理 超时协程) 关闭了会panic 让gc回收
 		close(c.stopChan)
 		_ = c.conn.Close()
-		clear(c.handles)
 	})
 }
 
@@ -382,8 +382,5 @@ func (c *connection) onWriteExecutionEvent(msg *Message) {
 }
 
 func (c *connection) curSeq() uint16 {
-	defer func() {
-		c.platformSerialNumber++
-	}()
-	return c.platformSerialNumber
+	return uint16(c.platformSerialNumber.Add(1) - 1)
 }
